@@ -157,13 +157,13 @@ def run(case):
             loop.call_later(case['starts'][index], lambda proc=proc: loop.create_task(proc.step_until_terminated()))
             # callbacks scheduled on the process by plain code (no process on the stack), a function and a coroutine function
             def plain(proc=proc):
-                world.rec('callback', programs.label(proc), 'env', plumpy.Process.current() is proc, proc.state.value)
+                world.rec('callback', programs.label(proc), 'env', programs.current_is(proc, plumpy), proc.state.value)
 
             async def coro(proc=proc):
                 import asyncio
-                world.rec('callback', programs.label(proc), 'env-coro', plumpy.Process.current() is proc, proc.state.value)
+                world.rec('callback', programs.label(proc), 'env-coro', programs.current_is(proc, plumpy), proc.state.value)
                 await asyncio.sleep(0)
-                world.rec('callback', programs.label(proc), 'env-coro+', plumpy.Process.current() is proc, proc.state.value)
+                world.rec('callback', programs.label(proc), 'env-coro+', programs.current_is(proc, plumpy), proc.state.value)
 
             if index % 2 == 0:
                 proc.call_soon(plain)
